@@ -91,6 +91,22 @@ NEEDS.update({
     "C20-4": "a non-ASCII user name of <= 64 runes but > 64 bytes: validation counts runes, cipher and registry count bytes; the validated config crashes the client at the first connection",
 })
 
+# wave 4: candidates delivered to /tmp/mut4/out/<Cxx>/ (one per property), imported as <Cxx>-5 (C14: -4)
+WAVE4 = {"C01-5": "C01", "C02-5": "C02", "C03-5": "C03", "C04-5": "C04", "C06-5": "C06", "C07-5": "C07", "C10-5": "C10",
+         "C13-5": "C13", "C14-4": "C14", "C19-5": "C19"}
+NEEDS.update({
+    "C01-5": "tcpFragment enabled with maxSleepMs > 0 on the sender, >= 2 sessions on one TCP underlay, and one session opening/closing while another writes during an inter-fragment sleep: sendMutex released during the sleep, another segment lands inside the fragmented one",
+    "C02-5": "no loss: receiver application paused until its queue holds 4096 segments so the advertised window is exactly 0 with nothing in flight, then the reader resumes: window updates with an unchanged ack number are discarded (<= instead of <)",
+    "C03-5": "see README.md",
+    "C04-5": "low-entropy pattern enabled and an on-path reflection splice (on TCP with the clear nonce rebased): the tidied protocol allow list accepts both low-entropy data directions at either role, so an endpoint reads its own reflected data",
+    "C06-5": "UDP: a datagram of an ESTABLISHED session (not the handshake) recorded and re-sent from a different source address within the key validity, the session already cleaned: established-session datagrams no longer enter the replay cache",
+    "C07-5": "a user record carrying both password and hashedPassword, and a reload in which only hashedPassword differs: the new fingerprint shortcut of SetUsers prefers the raw password while buildCredential prefers the hash; the retired credential keeps authenticating",
+    "C10-5": "UDP, live session K of user A, an openSessionRequest with id K validly encrypted by user B arriving from K's own ip:port: handed to the session as a retransmission without the owner check, Session.input panics",
+    "C13-5": "a stale second copy of the server's open session response (seq 0, sessionStruct) reaching an established client: it bypasses the new data-only stale filter, nextRecv is bumped, an unreceived segment is acknowledged and later dropped",
+    "C14-4": "UDP, low entropy on both sides, the server writing before the client's first low-entropy data (mode still OFF), then again afterwards: fragment size cached at the first write + per-datagram MTU guard removed (two cooperating sites): datagrams up to 2712 bytes at MTU 1400",
+    "C19-5": "a metrics snapshot (ToMetricPB) taken, then a roll-up of that counter, then the snapshot serialised and later reloaded: the in-place roll-up mutates history entries shared with the snapshot, dumped series exceeds the dumped value, quota window over-reports",
+})
+
 
 def main():
     out_root = "/verif/seeded"
@@ -102,6 +118,9 @@ def main():
         if int(n) >= 3:
             src = "/tmp/mut/out3/%s/%d" % (prop, int(n) - 2)
             cj = "/tmp/mut/results3/%s_%d.confirm.json" % (prop, int(n) - 2)
+        if sid in WAVE4:
+            src = "/tmp/mut4/out/%s" % prop
+            cj = "/tmp/mut4/results/%s.confirm.json" % prop
         if not os.path.exists(os.path.join(src, "patch.diff")) or not os.path.exists(cj):
             print(sid, "not ready")
             continue
